@@ -2,7 +2,7 @@
     Property theorems only; window functions REGENERATED, scatter loop Model/Driver.v (K3). *)
 From Coq Require Import QArith ZArith List Bool Permutation.
 From Coq Require String.
-From IV Require Import NP GenWindows GenScalars Dist RatLS Grid Driver Driver_proofs Driver_corollaries C06_proofs C06_instances Ecdf SortedPerm C06_qdm.
+From IV Require Import NP GenWindows GenScalars Dist RatLS Grid Driver Driver_proofs Driver_corollaries C06_proofs C06_instances Ecdf SortedPerm C06_qdm MonthsDriver_proofs MonthsDriver_order.
 Import ListNotations.
 Open Scope Z_scope.
 
@@ -116,3 +116,21 @@ Theorem C06_quantile_delta_mapping : forall L S, 0 < S -> S <= L -> S mod 2 = 1 
   forall em t cth, em = step_function \/ em = linear_interpolation -> order_equivariant L S (W_qdm D em t cth).
 Proof. intros L S H1 H2 H3 P D Hf em t cth Hem. exact (qdm_order_equivariant L S H1 H2 H3 D Hf em t cth Hem). Qed.
 Print Assumptions C06_quantile_delta_mapping.
+
+(** ISIMIP's month mode (running_window_mode = False; Model/Driver.v months_driver, correspondence K20): for every
+    value-wise pipeline whose calibration arguments are order-free, any re-ordering of obs, cm_hist, cm_future together
+    with their month arrays leaves the value of every dated cm_future value unchanged *)
+Theorem C06_month_mode_order_equivariance : forall (T V : Type) (g : list T -> list T -> list T -> T -> V),
+  (forall o o' h h' f f' x, Permutation o o' -> Permutation h h' -> Permutation f f' -> g o h f x = g o' h' f' x) ->
+  forall mo mh mf (obs hist fut : list T) mo' mh' mf' (obs' hist' fut' : list T),
+  (forall m, In m mf -> 1 <= m <= 12) ->
+  List.length obs = List.length mo -> List.length obs' = List.length mo' -> List.length hist = List.length mh -> List.length hist' = List.length mh' ->
+  List.length fut = List.length mf -> List.length fut' = List.length mf' ->
+  Permutation (combine mo obs) (combine mo' obs') -> Permutation (combine mh hist) (combine mh' hist') ->
+  Permutation (combine mf fut) (combine mf' fut') ->
+  exists out out', months_driver V mo mh mf obs hist fut (fun o h f => map (g o h f) f) = Some out /\
+                   months_driver V mo' mh' mf' obs' hist' fut' (fun o h f => map (g o h f) f) = Some out' /\
+    forall k k', (k < List.length mf)%nat -> (k' < List.length mf')%nat -> nth k mf 0 = nth k' mf' 0 -> nth_error fut k = nth_error fut' k' ->
+      nth k out None = nth k' out' None.
+Proof. exact months_order_equivariance. Qed.
+Print Assumptions C06_month_mode_order_equivariance.
